@@ -7,7 +7,7 @@ import shutil
 
 import numpy as np
 
-from common import Ctx, WORK, import_amisc
+from common import Ctx, WORK, import_amisc, enc
 import systems
 import c12
 from p_misc import oracle_c01, oracle_c02, snapshot
@@ -31,7 +31,11 @@ class injector:
         from amisc.component import Component
         from amisc.training import SparseGrid
         from amisc.interpolator import Lagrange
-        self.saved = [(Component, 'call_model', Component.call_model), (SparseGrid, 'refine', SparseGrid.refine),
+        self.current = None          # (component name, alpha, beta) of the activation in progress
+        self.sets_done = 0           # SparseGrid.set calls completed inside it
+        self.batch_order = []        # (alpha, beta) of the SparseGrid.refine calls made inside it, in order
+        self.saved = [(Component, 'activate_index', Component.activate_index),
+                      (Component, 'call_model', Component.call_model), (SparseGrid, 'refine', SparseGrid.refine),
                       (SparseGrid, 'set', SparseGrid.set), (SparseGrid, 'impute_missing_data', SparseGrid.impute_missing_data),
                       (Lagrange, 'refine', Lagrange.refine)]
         inj = self
@@ -46,9 +50,26 @@ class injector:
                     raise Crash(f'{kind} #{inj.count[kind]}')
                 return orig(self_, *a, **k)
             return w
+        orig_act = Component.activate_index
+
+        def act(self_, alpha, beta, *a, **k):
+            inj.current = (self_.name, tuple(alpha), tuple(beta)); inj.sets_done = 0; inj.batch_order = []
+            return orig_act(self_, alpha, beta, *a, **k)
+        Component.activate_index = act
         Component.call_model = wrap('call_model', Component.call_model, only_training=True)
-        SparseGrid.refine = wrap('grid_refine', SparseGrid.refine)
-        SparseGrid.set = wrap('grid_set', SparseGrid.set)
+        wrapped_refine = wrap('grid_refine', SparseGrid.refine)
+
+        def refine_recording(self_, alpha, beta, *a, **k):
+            inj.batch_order.append((tuple(alpha), tuple(beta)))      # the order in which the indices of the batch are processed (a set in the code)
+            return wrapped_refine(self_, alpha, beta, *a, **k)
+        SparseGrid.refine = refine_recording
+        wrapped_set = wrap('grid_set', SparseGrid.set)
+
+        def set_counting(self_, *a, **k):
+            r = wrapped_set(self_, *a, **k)
+            inj.sets_done += 1
+            return r
+        SparseGrid.set = set_counting
         SparseGrid.impute_missing_data = wrap('grid_impute', SparseGrid.impute_missing_data)
         Lagrange.refine = wrap('interp_refine', Lagrange.refine)
         return self
@@ -96,6 +117,7 @@ def run(ctx: Ctx):
                 'value are checked, training is resumed for the remaining iterations with the same per-iteration seeds and compared with the '
                 'uninterrupted run (history choices, index sets, weights, stored data, predictions; cost accounts separately); non-trivial = an '
                 'interruption after the first iteration')
+    flines, fmeta = [], []
     try:
         for n in range(ctx.pick(2, 12)):
             sys_seed = ctx.seed * 613 + n; np_seed = rng.randint(0, 10 ** 6); K = rng.randint(4, 5)
@@ -156,6 +178,22 @@ def run(ctx: Ctx):
                         for a, b in comp.active_set.union(comp.candidate_set):
                             if comp.misc_states.get((a, b)) is None:
                                 ctx.violate('C13:index-without-state', f'{kind} #{i}: index {(a, b)} of {comp.name} is in the saved sets but has no interpolator state', case)
+                    # correspondence with Model/Train.v: the keys (fidelity, grid coordinate) stored in the saved state of the component whose
+                    # activation was interrupted = store of tcrash after the completed requests, with j = store calls completed
+                    if inj.current is not None:
+                        cname, ca, cb = inj.current
+                        lc = loaded[cname]
+                        if lc.has_surrogate:
+                            reqs_c = [list(h['alpha']) + list(h['beta']) for h in system.train_history if h['component'] == cname]
+                            na_c = len(lc.model_fidelity)
+                            mx_c = list(lc.model_fidelity) + list(lc.max_beta)
+                            real_keys = sorted((tuple(a_), tuple(c_)) for a_, d_ in lc.training_data.yi_map.items() for c_ in d_)
+                            flines.append('train_crash ' + enc([mx_c, na_c, int(lc.training_data.knots_per_level), [0] * len(lc.data_fidelity), reqs_c, list(ca) + list(cb), int(inj.sets_done),
+                                                              [list(a_) + list(b_) for a_, b_ in inj.batch_order]]))
+                            fmeta.append(({**case, 'component': cname, 'interrupted_request': [list(ca), list(cb)], 'stores_completed': int(inj.sets_done),
+                                           'completed_requests': reqs_c, 'observed_batch_order': [list(a_) + list(b_) for a_, b_ in inj.batch_order],
+                                           'batch_complete': inj.target[0] != 'grid_refine'}, real_keys, sorted((tuple(a_), tuple(b_)) for a_, b_ in lc.active_set),
+                                          sorted((tuple(a_), tuple(b_)) for a_, b_ in lc.candidate_set), na_c))
                     bad = data_truthful(loaded, spec)
                     if bad:
                         ctx.violate('C13:saved-value-not-a-model-output', f'{kind} #{i}: stored {bad[0]}', case)
@@ -206,3 +244,19 @@ def run(ctx: Ctx):
     finally:
         os.chdir(cwd0)
         shutil.rmtree(tmp, ignore_errors=True)
+    from common import run_model, ModelError
+    for (case, real_keys, real_act, real_cand, na_c), mo in zip(fmeta, run_model(flines, shards=8) if flines else []):
+        ctx.count('saved_states_compared')
+        if isinstance(mo, ModelError):
+            ctx.disagree('C13:model-error', case, str(mo), None); continue
+        mkeys = sorted((tuple(a_), tuple(c_)) for a_, c_ in mo[1])
+        if mkeys != real_keys:
+            ctx.disagree('C13:stored keys in the saved state', case, mkeys, real_keys)
+        # the batch the code processed is the model's batch, as a set (only when every index of the batch had been reached)
+        if case['batch_complete']:
+            mb = sorted((tuple(a_), tuple(b_)) for a_, b_ in mo[2]); rb = sorted((tuple(o_[:na_c]), tuple(o_[na_c:])) for o_ in case['observed_batch_order'])
+            if mb != rb:
+                ctx.disagree('C13:indices of the interrupted batch', case, mb, rb)
+        mact = sorted((tuple(i_[:na_c]), tuple(i_[na_c:])) for i_ in mo[3]); mcand = sorted((tuple(i_[:na_c]), tuple(i_[na_c:])) for i_ in mo[4])
+        if mact != real_act or mcand != real_cand:
+            ctx.disagree('C13:index sets in the saved state', case, [mact, mcand], [real_act, real_cand])
